@@ -52,6 +52,8 @@ def parse_case(case):
 
 def parse_out(line):
     m = re.match(r'cap=(\d+) steps=(\d+) (ok|livelock) log=([0-9a-f]+) res=(\S*) final=(\S+)', line)
+    if m and m.group(6).startswith('q='):
+        return dict(cap=int(m.group(1)), steps=int(m.group(2)), status=m.group(3), fin={}, res=[(re.findall(r'[^,]+', r.rstrip('*')), r.endswith('*')) for r in m.group(5).split('|')])
     if not m: return None
     res = []
     for r in m.group(5).split('|'):
@@ -68,7 +70,7 @@ def parse_out(line):
 class Check(DiffCheck):
     id = 'C07'
     coq_dirs = ['Base', 'E3', 'C07']
-    coq_targets = ['C07/C07_Proofs.vo']
+    coq_targets = ['C07/C07_Arith.vo', 'C07/C07_Lists.vo', 'C07/C07_SPSC_Proofs.vo', 'C07/C07_MPMC_Proofs.vo', 'C07/C07_Proofs.vo']
     properties_v = 'C07/C07_Properties.v'
     extract_v = 'C07/C07_Extract.v'
     runner_ml = 'ocaml/C07_run.ml'
@@ -103,32 +105,54 @@ class Check(DiffCheck):
             for w in itertools.product(range(n), repeat=L):
                 yield ''.join(DIG[x] for x in w)
         ex = [
-            ('mpmc', 2, ['uu', 'u', 'ooo'], 8 if quick else 10),
-            ('mpmc', 1, ['u', 'uu', 'oo'], 7 if quick else 9),
-            ('mpmc', 2, ['ss', 's', 'rrr'], 7 if quick else 9),
-            ('mpmc', 2, ['us', 'su', 'oro'], 7 if quick else 9),
+            ('mpmc', 2, ['uu', 'u', 'ooo'], 7 if quick else 10),
+            ('mpmc', 1, ['u', 'uu', 'oo'], 6 if quick else 9),
+            ('mpmc', 2, ['ss', 's', 'rrr'], 6 if quick else 9),
+            ('mpmc', 2, ['us', 'su', 'oro'], 6 if quick else 9),
             ('mpmc', 4, ['uuu', 'uu', 'oor'], 6 if quick else 8),
-            ('bmpmc', 2, ['uB', 'u', 'o2o'], 7 if quick else 9),
+            ('bmpmc', 2, ['uB', 'u', 'o2o'], 6 if quick else 9),
             ('bmpmc', 4, ['CB', 'Bu', '3o2'], 6 if quick else 8),
-            ('spsc', 2, ['uuu', 'ooo'], 10 if quick else 13),
-            ('spsc', 2, ['uBu', 'o2o'], 9 if quick else 12),
-            ('spsc', 3, ['CuC', '3o4'], 9 if quick else 12),
+            ('spsc', 2, ['uuu', 'ooo'], 9 if quick else 13),
+            ('spsc', 2, ['uBu', 'o2o'], 8 if quick else 12),
+            ('spsc', 3, ['CuC', '3o4'], 8 if quick else 12),
         ]
         ex = [e for e in ex if e[0] in self.kinds()]
+        # RingChannel protocol (real send/recv/notify code over an atomic abstract FIFO + counter semaphores):
+        # exhaustive schedule words; 'start' field = yield_turn
+        if 'chan' in self.kinds():
+            for capreq, Y, spec, L in [(2, 0, ['s', 'r'], 10 if quick else 14), (2, 0, ['ss', 'r', 'r'], 7 if quick else 10),
+                                       (2, 1, ['s', 's', 'rr'], 6 if quick else 9), (2, 0, ['sss', 'r'], 9 if quick else 12),
+                                       (2, 0, ['s', 's', 'r', 'r'], 6 if quick else 8)]:
+                for w in words(len(spec), L):
+                    cs.append(mk_case('chan', capreq, Y, 300, spec, w, 'full'))
         for kind, capreq, spec, L in ex:
             for w in words(len(spec), L):
                 cs.append(mk_case(kind, capreq, 0, 400, spec, w))
         # ---- random
-        nrand = 2500 if quick else 60000
+        nrand = 3000 if quick else 60000
         for _ in range(nrand):
             cs.append(self.random_case(rng))
         return list(dict.fromkeys(cs))
 
     def kinds(self):
-        return ['spsc', 'mpmc', 'bmpmc']
+        return ['spsc', 'mpmc', 'bmpmc', 'chan']
+
+    def random_chan(self, rng):
+        np_, nc = rng.randrange(1, 4), rng.randrange(1, 4)
+        spec = ['s' * rng.randrange(1, 6) for _ in range(np_)] + ['r' * rng.randrange(1, 5) for _ in range(nc)]
+        n = len(spec)
+        sched = []
+        for _ in range(rng.randrange(0, 80)):
+            p = rng.randrange(n)
+            burst = rng.choice([1, 1, 2, 3, 6, 12])
+            fl = 1 if rng.random() < 0.08 else 0          # flavor 1: a timed semaphore wait times out
+            sched += [p + n * fl] * burst
+        w = ''.join(DIG[x] for x in sched[:90])
+        return mk_case('chan', rng.choice([1, 2, 2, 3]), rng.choice([0, 0, 1, 2]), 400, spec, w, 'full')
 
     def random_case(self, rng):
         kind = rng.choice(self.kinds() + ['mpmc'])
+        if kind == 'chan': return self.random_chan(rng)
         capreq = rng.choice([1, 2, 2, 3, 4, 4])
         cap = capof(capreq)
         if kind == 'spsc':
@@ -176,6 +200,7 @@ class Check(DiffCheck):
     def category(self, case):
         c = parse_case(case)
         cap = capof(c['capreq'])
+        if c['kind'] == 'chan': return 'chan:cap%d:yield%d:%dp' % (cap, c['start'], len(c['scripts']))
         return '%s:cap%d:%s%s' % (c['kind'], cap, '%dp' % len(c['scripts']), ':nearwrap' if c['start'] + 4 * cap >= W else '')
 
     def nontrivial(self, case):
@@ -203,6 +228,7 @@ class Check(DiffCheck):
         o = parse_out(out)
         if o is None: return 'unparsable output %r' % out[:200]
         if not self.legal(c): return None
+        if c['kind'] == 'chan': return self.oracle_chan(c, o, out)
         cap = capof(c['capreq'])
         if o['cap'] != cap: return 'capacity %d, expected %d' % (o['cap'], cap)
         pushed, maybe, popped = [], [], []            # (value) lists; popped per consumer in order
@@ -260,6 +286,55 @@ class Check(DiffCheck):
                 pr = v // 100
                 if pr in last and last[pr] > v: return 'queue content out of per-producer order'
                 last[pr] = v
+        return None
+
+    def oracle_chan(self, c, o, out):
+        """RingChannel: exactly-once/FIFO on the results + NO LOST WAKE-UP evaluated after every step of the
+        implementation's log: never (queue non-empty, queue_sem empty, some consumer blocked in queue_sem.wait,
+        and every participant that is inside an operation is such a blocked consumer); dual for senders."""
+        cap = capof(c['capreq'])
+        sent, got = [], []
+        for script, (items, unf) in zip(c['scripts'], o['res']):
+            for (k, a), r in zip(script, items):
+                if k in 'us': sent.append(a[0])
+                else: got.append(int(r))
+        if len(set(got)) != len(got): return 'a value was received twice'
+        for v in got:
+            if v not in sent and not any(v == a[0] for sc in c['scripts'] for (k, a) in sc if k in 'us'): return 'value %d invented' % v
+        for script, (items, unf) in zip(c['scripts'], o['res']):
+            last = {}
+            for (k, a), r in zip(script, items):
+                if k in 'or':
+                    v = int(r); pr = v // 100
+                    if pr in last and last[pr] > v: return 'per-producer order broken at a consumer'
+                    last[pr] = v
+        if ' LOG ' not in out: return None
+        log = out.split(' LOG ', 1)[1].split()
+        n = len(c['scripts'])
+        consumer = [bool(sc) and sc[0][0] in 'or' for sc in c['scripts']]
+        qlen = 0; qsem = 0; ssem = 0
+        inflight = [False] * n; blocked = [None] * n
+        for e in log:
+            done = e.endswith('!'); e = e.rstrip('!')
+            f = e.split('.'); p = int(f[0]); kind = f[1]
+            inflight[p] = not done
+            blocked[p] = None
+            if kind == 'qpush' and f[2] == '1': qlen += 1
+            elif kind == 'qpop' and f[2] == '1': qlen -= 1
+            elif kind == 'semsig': qsem += 1
+            elif kind == 'ssemsig': ssem += 1
+            elif kind == 'semwait':
+                if f[2] == '1': qsem -= 1
+                elif f[2] == '0': blocked[p] = 'r'
+            elif kind == 'ssemwait':
+                if f[2] == '1': ssem -= 1
+                elif f[2] == '0': blocked[p] = 's'
+            if qlen > cap: return 'queue holds more than capacity'
+            act = [q for q in range(n) if inflight[q]]
+            if act and qlen > 0 and qsem == 0 and all(blocked[q] == 'r' for q in act):
+                return 'LOST WAKE-UP: queue non-empty, queue_sem empty, every participant inside an operation is a consumer blocked in queue_sem.wait (after log entry %r)' % e
+            if act and qlen < cap and ssem == 0 and all(blocked[q] == 's' for q in act):
+                return 'LOST WAKE-UP (send side): queue has room, send_sem empty, every participant inside an operation is a sender blocked in send_sem.wait (after log entry %r)' % e
         return None
 
     def neighbours(self, case, rng):
